@@ -10,4 +10,15 @@ CHECKS = {
                 "n_init_slow_window_iter>=1, multiplier>=1; string keys not modelled; z3 trusted.",
     },
 }
+CHECKS["C20"] = {
+    "engine": "pyvc",
+    "technique": "contract-based deductive verification: real-arithmetic specifications and IEEE domain/conditioning obligations on the real utils.py source, discharged by z3 with instantiated exp/log axioms",
+    "design_ref": "DESIGN.md section 7 C20",
+    "text": "Every helper and every LogRepFloat operator in mici/utils.py is symbolically executed from source. Layer 1 proves the result equals the real "
+            "specification for all reals (EXP/LOG uninterpreted with axioms); layer 2 proves, under a monotone 1-ulp libm model, that for every finite double no libm "
+            "call leaves its domain or overflows, that log/log1p are only evaluated where their condition number is <= 4, that LogRepFloat-LogRepFloat operations stay in "
+            "log space, compare like the reals and never skip an accumulation.",
+    "note": "libm accuracy/monotonicity model and EXP/LOG axioms are trusted (A3); 'near machine precision' is established as per-branch conditioning, not as a full "
+            "forward error bound; mixed operations with plain numbers are specified over reals only (their plain value must be representable).",
+}
 NOT_APPLICABLE = {}
